@@ -30,17 +30,22 @@ def linspaceIdsWith (r : Rat → Rat) (n N : Nat) : List Nat :=
 /-- the ids evo computes: binary64 round-to-nearest-even -/
 def linspaceIds (n N : Nat) : List Nat := linspaceIdsWith F64.rne! n N
 
-/-- `PosePath3D.downsample`: `none` = returned without touching the trajectory -/
-def downsampleIds (n N : Nat) : Except Err (Option (List Nat)) :=
+/-- `PosePath3D.downsample` (ids only): `none` = returned without touching the trajectory -/
+def downsampleIdsWith (r : Rat → Rat) (n N : Nat) : Except Err (Option (List Nat)) :=
   if n ≤ N then .ok none
   else if N < 1 then .error .traj
-  else .ok (some (linspaceIds n N))
+  else .ok (some (linspaceIdsWith r n N))
 
-def downsample {α} (l : List α) (N : Nat) : Except Err (List α) :=
-  match downsampleIds l.length N with
+def downsampleWith {α} (r : Rat → Rat) (l : List α) (N : Nat) : Except Err (List α) :=
+  match downsampleIdsWith r l.length N with
   | .error e => .error e
   | .ok none => .ok l
   | .ok (some ids) => .ok (reduceIds l ids)
+
+/-- evo: float64 rounding -/
+def downsampleIds (n N : Nat) : Except Err (Option (List Nat)) := downsampleIdsWith F64.rne! n N
+
+def downsample {α} (l : List α) (N : Nat) : Except Err (List α) := downsampleWith F64.rne! l N
 
 /-! ### accumulated distances, adjacent differences -/
 
